@@ -51,7 +51,9 @@ APIS = ['bind_str', 'bind_tuple', 'parse_flat', 'block', 'multi', 'hook_str', 'h
         # skip_unknown concerns unknown *configurables* only: what a known one refuses is still an error
         'parse_skip', 'block_skip',
         # a key of four elements is no key form at all (it is what Gin's parsed keys look like inside)
-        'bind_tuple4']
+        'bind_tuple4',
+        # a parameter "name" that is not a string names no parameter, whether or not there is **kwargs
+        'bind_tuple_nonstr']
 
 
 DYN_SRC = ('class Pipeline:\n'
@@ -296,6 +298,10 @@ def check_static(case, prebuilt=None):
       fn = lambda: gin.bind_parameter((scope, sp, param), value)
     elif api == 'bind_tuple4':
       fn = lambda: gin.bind_parameter((scope, sp, full, param), value)
+      accepted = False
+    elif api == 'bind_tuple_nonstr':
+      nonstr = [3, None, ('p',), 1.5][len(param) % 4]
+      fn = lambda: gin.bind_parameter((scope, sp, nonstr), value)
       accepted = False
     elif api == 'parse_flat':
       fn = lambda: gin.parse_config(f'{key}.{param} = {value!r}\n')
